@@ -136,11 +136,14 @@ impl<T> Vec<T> {
 
         unsafe {
             // safety: `location.bucket` is always in bounds
+            // `Acquire` pairs with the `Release` CAS in `get_or_alloc`: the entries of
+            // the bucket (in particular their `active` flags) are initialized by the
+            // allocating thread and must be visible before they are read here
             let entries = self
                 .buckets
                 .get_unchecked(location.bucket as usize)
                 .entries
-                .load(Ordering::Relaxed);
+                .load(Ordering::Acquire);
 
             // bucket is uninitialized
             if entries.is_null() {
@@ -425,11 +428,12 @@ impl<'v, T> Iterator for Iter<'v, T> {
             #[cfg(feature = "verif-hooks")]
             point(site::BOXCAR_ITER_LOAD, self.idx as u64);
             let entries = unsafe {
+                // `Acquire`: see `Vec::get`
                 self.vec
                     .buckets
                     .get_unchecked(self.location.bucket as usize)
                     .entries
-                    .load(Ordering::Relaxed)
+                    .load(Ordering::Acquire)
             };
             debug_assert!(self.location.bucket < BUCKETS);
 
